@@ -20,7 +20,7 @@ func init() {
 	register(&Property{
 		ID:        "C14",
 		Title:     "BPF conntrack cleanup never removes a live connection",
-		Technique: "static analysis: SSA guard/provenance rules on the Go scanner + clang AST guard rule (compare-then-delete) on conntrack_cleanup.c",
+		Technique: "static analysis: SSA guard/provenance rules on the Go scanner (incl. key/timestamp source pairing at the cleanup-queue producer) + clang AST guard rule (compare-then-delete) on conntrack_cleanup.c + type-resolved reference-set comparison of the IPv4/IPv6 twin accessors",
 		DesignRef: "DESIGN.md §3 C14",
 		Explanation: "Decides the compare-then-delete discipline on both sides: (ts) in LivenessScanner.Check every `delete` verdict is returned only under EntryExpired(...)==true (or reverse entry missing) and carries LastSeen() of the very entry that was judged; " +
 			"(nodirect) in Scanner.Scan a conntrack entry is deleted directly from user space only when there is no BPF cleaner or the verdict is delete-immediate, and only under a delete verdict; everything else is queued for the kernel-side cleaner with the judged timestamp(s) taken from that Check call; " +
@@ -28,8 +28,10 @@ func init() {
 			"(timeouts) EntryExpired reads every field of timeouts.Timeouts; " +
 			"(idle) in EntryExpired and the function it delegates to, every return of expired==true is reached only across an edge `I > T` (or `I >= T`, in either spelling) whose larger side I is the entry's idle time, " +
 			"i.e. arithmetic over `now - entry.LastSeen()` in which LastSeen() is the only accessor of the entry and is subtracted; other timestamps or flags of the entry may only be further conjuncts; " +
-			"edges that need a bool parameter EntryExpired passes as constant false are treated as infeasible.",
-		NotDecided: "Interleavings between scanner, kernel cleaner and packet path; which timeout value an idle time is compared with (protocol/state selection) inside EntryExpired; that idle entries are eventually removed (liveness).",
+			"edges that need a bool parameter EntryExpired passes as constant false are treated as infeasible; " +
+			"(pair) at every call of Scanner.updateCleanupMap(key, revKey, ts, rev_ts) the key and the timestamp of each position derive from a common source object - the entry the scanner callback was invoked with (and the Check judgement computed from it), one cached record together with the key it was looked up or ranged with, or one call - and an entry value's own LastSeen() never travels with a key obtained from that value by an accessor (its ReverseNATKey() names another entry); the reverse position is exempt when revKey is the version helper's dummy key, which makes the kernel cleaner ignore rev_last_seen; " +
+			"(twin) every same-named method pair of the IPv4/IPv6 twin types of felix/bpf/conntrack{,/v4,/cleanupv1} (v4.Key/KeyV6, v4.Value/ValueV6, cleanupv1.Value/ValueV6, ipv4Helper/ipv6Helper; String() excluded as rendering) and every twin-named function pair that builds or converts such a type mentions - transitively through helpers of the same package - the same calico constants, functions, methods, types, variables and struct fields modulo the IPv4->IPv6 naming relation; an exported method without a twin, and an IPv6 body that mentions an IPv4 constant whose IPv6 twin has a different value (outside helpers shared by both families), are violations.",
+		NotDecided: "Interleavings between scanner, kernel cleaner and packet path; which timeout value an idle time is compared with (protocol/state selection) inside EntryExpired; that idle entries are eventually removed (liveness) beyond the pairing and twin disciplines; pair: which of a cached record's two timestamps belongs to which key (inside one record, one range step or one scanner invocation every key/timestamp combination shares a source, so a swap in the post-scan replay loop or in the stores into revNATKeyToFwdNATInfo is not seen); twin: literals, statement order and control flow of the twins (only what they mention), objects outside the calico module (net.IP.To4 vs To16).",
 		Assumptions: []string{
 			"go/types + go/ssa model (CGO_ENABLED=0 stubs)", "clang 14 AST of conntrack_cleanup.c with /verif/cstubs standing in for libbpf",
 			"LastSeen() is a pure accessor of the entry value",
@@ -50,6 +52,16 @@ func init() {
 				Old: "if rstSeen && age > t.TCPResetSeen {", New: "if rstSeen {", Expect: "C14.idle/entryDone/expired"},
 			{Name: "ICMP timeout comparison the wrong way round", File: "felix/bpf/conntrack/cleanup.go",
 				Old: "if age > t.ICMPTimeout {", New: "if age < t.ICMPTimeout {", Expect: "C14.idle/entryDone/expired"},
+			{Name: "C14-3: reverse entry reached after its forward entry: the two timestamps of the queued pair are swapped", File: "felix/bpf/conntrack/scanner.go",
+				Old: "s.updateCleanupMap(fwdKey, key, fwdTS, ts)", New: "s.updateCleanupMap(fwdKey, key, ts, fwdTS)", Expect: "C14.pair/Scanner.handleNATEntries/updateCleanupMap#3/fwd"},
+			{Name: "forward entry reached after its reverse entry: the forward entry's own last_seen queued as rev_last_seen", File: "felix/bpf/conntrack/scanner.go",
+				Old: "s.updateCleanupMap(key, revKey, ts, rev_ts)", New: "s.updateCleanupMap(key, revKey, rev_ts, ts)", Expect: "C14.pair/Scanner.handleNATEntries/updateCleanupMap#2/rev"},
+			{Name: "C14-4: IPv6 IsForwardDSR tests the NodePort-forward flag", File: "felix/bpf/conntrack/v4/map6.go",
+				Old: "func (e ValueV6) IsForwardDSR() bool {\n\treturn e.Flags()&FlagNATFwdDsr != 0", New: "func (e ValueV6) IsForwardDSR() bool {\n\treturn e.Flags()&FlagNATNPFwd != 0", Expect: "C14.twin/felix/bpf/conntrack/v4/Value.IsForwardDSR"},
+			{Name: "IPv6 LastSeen decodes rst_seen", File: "felix/bpf/conntrack/v4/map6.go",
+				Old: "return int64(binary.LittleEndian.Uint64(e[VoLastSeenV6 : VoLastSeenV6+8]))", New: "return int64(binary.LittleEndian.Uint64(e[VoRSTSeenV6 : VoRSTSeenV6+8]))", Expect: "C14.twin/felix/bpf/conntrack/v4/Value.LastSeen"},
+			{Name: "F19 re-introduced: IPv6 cleanup record reads its timestamp at the IPv4 key size", File: "felix/bpf/conntrack/cleanupv1/map6.go",
+				Old: "return binary.LittleEndian.Uint64(e[KeyV6Size : KeyV6Size+8])", New: "return binary.LittleEndian.Uint64(e[KeySize : KeySize+8])", Expect: "C14.twin/felix/bpf/conntrack/cleanupv1/Value.Timestamp"},
 		},
 	})
 }
@@ -134,7 +146,12 @@ func runC14(c *Ctx) {
 	c.Rule("C14.idle", "E-GUARD/E-FLOW", "EntryExpired (and the function it delegates to): every return of expired==true is guarded by a comparison idle > timeout whose larger side derives from now - entry.LastSeen() and from no other accessor of the entry", 8)
 	c.Rule("C14.timeouts", "E-FIELDS", "EntryExpired reads every field of timeouts.Timeouts", 1)
 
-	p := c.Load(ctPkg, "felix/bpf/conntrack/timeouts")
+	c.Rule("C14.twin", "E-TWIN", "every same-named method pair of an IPv4/IPv6 twin type pair (v4.Value/ValueV6, v4.Key/KeyV6, cleanupv1.Value/ValueV6, ipv4Helper/ipv6Helper) and every twin-named function pair mentions the same constants, functions, methods, types and fields modulo the IPv4->IPv6 naming relation; a missing twin or an un-substituted constant with a different-valued IPv6 twin is a violation", 55)
+
+	p := c.Load(ctPkg, "felix/bpf/conntrack/timeouts", "felix/bpf/conntrack/v4", "felix/bpf/conntrack/cleanupv1")
+	c.Rule("C14.pair", "E-PAIR", "every call of Scanner.updateCleanupMap(key, revKey, ts, rev_ts): key/ts and revKey/rev_ts each derive from a common source object (the entry the scanner callback was invoked with and its Check judgement, one cached record and the key it was looked up or ranged with, one call); an entry value's own LastSeen() never travels with a key obtained from that value by an accessor; dummy reverse key exempt", 12)
+	c14Pair(c, p)
+	c14Twin(c, p, []string{"felix/bpf/conntrack/v4", "felix/bpf/conntrack/cleanupv1", ctPkg})
 	c14Check(c, p)
 	c14Scan(c, p)
 	c14Timeouts(c, p)
